@@ -55,15 +55,22 @@ func periodString(p *timepb.Period) string {
 		if t == nil {
 			return "-"
 		}
+		if t.Nanos != 0 {
+			return fmt.Sprintf("%d.%d", t.Seconds, t.Nanos/100_000_000)
+		}
 		return fmt.Sprint(t.Seconds)
 	}
 	return "[" + e(p.StartTime) + "," + e(p.EndTime) + ")"
 }
 
 func genPeriod(rng *vk.Rand, allowUnbounded bool) *timepb.Period {
-	s := rng.Intn(9)
-	e := s + 1 + rng.Intn(10-s)
-	p := &timepb.Period{StartTime: &timestamppb.Timestamp{Seconds: int64(s)}, EndTime: &timestamppb.Timestamp{Seconds: int64(e)}}
+	// a grid of half seconds over ten seconds: bounds that differ only in their sub-second part occur often
+	s := rng.Intn(19)
+	e := s + 1 + rng.Intn(20-s)
+	at := func(h int) *timestamppb.Timestamp {
+		return &timestamppb.Timestamp{Seconds: int64(h / 2), Nanos: int32(h%2) * 500_000_000}
+	}
+	p := &timepb.Period{StartTime: at(s), EndTime: at(e)}
 	if allowUnbounded {
 		if rng.Chance(1, 6) {
 			p.StartTime = nil
